@@ -154,7 +154,7 @@ structure Cross where
   deriving Repr, DecidableEq
 
 /-- `GridCellId(((v.x - ox) / cx).floor().to_usize().unwrap(), ((v.y - oy) / cy).floor().to_usize().unwrap())` -/
-def cellOf (g : GGrid) (p : Pt) : Nat × Nat :=
+def gridCellOf (g : GGrid) (p : Pt) : Nat × Nat :=
   (((p.1 - g.ox) / g.cx).floor.toNat, ((p.2 - g.oy) / g.cy).floor.toNat)
 
 /-- `d_base = 1 + 4 * x + nx * 4 * y` (computed in `isize` in the code; cells are non-negative) -/
@@ -238,8 +238,8 @@ def sortByS (l : List Cross) : List Cross := l.foldl (fun acc c => insertByS c a
     vertex chain the code builds (`vs`, the keys / values of `new_segments`), i.e. from `va` to `vb`;
     see `crossingsMeta` for the order of the identifiers -/
 def crossingsOf (g : GGrid) (eps : Rat) (va vb : Pt) : List Cross :=
-  let c1 := cellOf g va
-  let c2 := cellOf g vb
+  let c1 := gridCellOf g va
+  let c2 := gridCellOf g vb
   let i : Int := (c2.1 : Int) - (c1.1 : Int)
   let j : Int := (c2.2 : Int) - (c1.2 : Int)
   let dist := i.natAbs + j.natAbs
@@ -276,8 +276,8 @@ def crossingsOf (g : GGrid) (eps : Rat) (va vb : Pt) : List Cross :=
     reverses the vertex chain, so in the two backward straight cases (`(i, 0)` with `i ≤ -2`, `(0, j)`
     with `j ≤ -2`) they run against the segment; everywhere else identifier order = segment order. -/
 def crossingsMeta (g : GGrid) (eps : Rat) (va vb : Pt) : List Cross :=
-  let c1 := cellOf g va
-  let c2 := cellOf g vb
+  let c1 := gridCellOf g va
+  let c2 := gridCellOf g vb
   let i : Int := (c2.1 : Int) - (c1.1 : Int)
   let j : Int := (c2.2 : Int) - (c1.2 : Int)
   if (j = 0 ∧ i < -1) ∨ (i = 0 ∧ j < -1) then (crossingsOf g eps va vb).reverse
@@ -293,8 +293,8 @@ abbrev Slot := Option (Nat × Rat)
     for two grid lines).  For a segment in general position every slot is written
     (`C16_slots_genpos`). -/
 def slotsOf (g : GGrid) (eps : Rat) (va vb : Pt) : List Slot :=
-  let c1 := cellOf g va
-  let c2 := cellOf g vb
+  let c1 := gridCellOf g va
+  let c2 := gridCellOf g vb
   let i : Int := (c2.1 : Int) - (c1.1 : Int)
   let j : Int := (c2.2 : Int) - (c1.2 : Int)
   let l : List Slot := (crossingsMeta g eps va vb).map fun c =>
@@ -381,7 +381,7 @@ def mkGV (poi : List Nat) (v : Nat) : GV := if poi.contains v then .poi v else .
 
 /-- `GridCellId::l1_dist` of the cells of the two ends: the number of slots / identifiers the segment receives -/
 def segDist (g : GGrid) (va vb : Pt) : Nat :=
-  (((cellOf g vb).1 : Int) - ((cellOf g va).1 : Int)).natAbs + (((cellOf g vb).2 : Int) - ((cellOf g va).2 : Int)).natAbs
+  (((gridCellOf g vb).1 : Int) - ((gridCellOf g va).1 : Int)).natAbs + (((gridCellOf g vb).2 : Int) - ((gridCellOf g va).2 : Int)).natAbs
 
 /-- the vertex chain `v1, intersections …, v2` of one segment whose identifiers start at `start`: the intersection at
     position `p` of the chain is `Intersec(start + p)` — `start + (n - 1 - p)` in the two backward straight cases, where
@@ -389,8 +389,8 @@ def segDist (g : GGrid) (va vb : Pt) : Nat :=
 def chainOf (g : GGrid) (eps : Rat) (poi : List Nat) (verts : List Pt) (start : Nat) (seg : Nat × Nat) : List GV :=
   let va := verts.getD seg.1 (0, 0)
   let vb := verts.getD seg.2 (0, 0)
-  let i : Int := ((cellOf g vb).1 : Int) - ((cellOf g va).1 : Int)
-  let j : Int := ((cellOf g vb).2 : Int) - ((cellOf g va).2 : Int)
+  let i : Int := ((gridCellOf g vb).1 : Int) - ((gridCellOf g va).1 : Int)
+  let j : Int := ((gridCellOf g vb).2 : Int) - ((gridCellOf g va).2 : Int)
   let cs := crossingsOf g eps va vb
   let mid := cs.zipIdx.map fun x =>
     if i ≠ 0 ∧ j ≠ 0 ∧ x.1.t = 0 then GV.corner x.1.dart
